@@ -8,7 +8,7 @@ THEOREMS = ['c05_roundtrip', 'c05_prefix_is_length', 'c05_chunking', 'c05_encode
 
 RULE = ('cases from one seeded PRNG: (stream) 1-5 structured random frames of all eight kinds (arbitrary UTF-8 topics, 0-3 headers incl. cid/req_id, '
         'payload sizes biased to 0,1,8,9,255,256 and, in every 25th case, to limit-24..limit+24), each encoded by the real Encoder, concatenated and cut '
-        'by one of six chunking modes (whole, 1-byte, 1-3, 1-12, 1-2000, header-aligned sizes; optional empty chunk), decoded by the real Decoder; (raw) '
+        'by one of six chunking modes (whole, 1-byte, 1-3, 1-12, 1-2000, header-aligned sizes; optional empty chunk), decoded by the real Decoder; the same frames are also written one after the other into ONE buffer, which must equal the concatenation of the single encodings; (raw) '
         'oversize length prefixes, well-framed type-confused frames (valid length, any type byte, random or foreign payload) and mutated valid streams (truncate, bit flips, adversarial 8-byte values, garbage tail, byte removal); (batch) message lists '
         'and mutated/arbitrary batch bytes, and well-formed batches in which ONE aligned field (the count or one length marker) is replaced by a boundary value (2^64-1 .. 2^64-9, 2^63, around the bytes that remain, around the frame limit and 2^32), optionally truncated; non-trivial = distinct case text')
 
